@@ -7,6 +7,7 @@ replace hop.computer/hop => /repo
 replace github.com/BurntSushi/toml => github.com/drebelsky/toml v0.0.2
 
 require (
+	github.com/AstromechZA/etcpwdparse v0.0.0-20170319193008-f0e5f0779716
 	github.com/anishathalye/porcupine v1.3.0
 	github.com/creack/pty v1.1.18
 	github.com/sirupsen/logrus v1.8.3
@@ -15,7 +16,6 @@ require (
 )
 
 require (
-	github.com/AstromechZA/etcpwdparse v0.0.0-20170319193008-f0e5f0779716 // indirect
 	github.com/BurntSushi/toml v1.2.0 // indirect
 	github.com/cloudflare/circl v1.6.1 // indirect
 	github.com/google/go-cmp v0.5.9 // indirect
